@@ -1,13 +1,16 @@
 (* Model of ExecutionPlan.group_features_by_compute_framework_and_options (mloda/core/prepare/execution_plan.py) with
-   Feature.has_similarity_properties / base_similarity_properties (components/feature.py) (C15).   Definitions only.
+   Feature.similarity_key / base_similarity_key (components/feature.py) (C15).   Definitions only.
+   Code as repaired by fixes/C15-grouping-by-equality.patch (former known findings C15-grouping-conflates-list-tuple and
+   C15-grouping-hash-collision: the dictionary was keyed by the hash INTEGER of the key).
 
-   The code groups by Python hash() integers:
-     has_similarity_properties()  = hash((options, frozenset(cfw) | None, data_type))   for a typed feature
-     base_similarity_properties() = hash((options, frozenset(cfw) | None))
-   and hash(options) = hash(_make_hashable(options.group)) -- the context is not part of it.  The model replaces a hash
-   value by the thing hashed: `it_kb` is the class of (canonical form of the group options, compute frameworks) under
-   Python == (the index of the first feature of the request with an equal pair), so "same hash" becomes "same class".
-   That different canonical forms do not collide in 64 bits is assumed.
+   The code groups by the VALUES
+     similarity_key()      = (options, frozenset(cfw) | None, data_type)   for a typed feature
+     base_similarity_key() = (options, frozenset(cfw) | None)
+   used as dictionary keys / compared with ==.  A Python dict finds a key by hash AND ==; Options.__eq__ compares the group
+   dictionaries, hash(options) = hash(_make_hashable(options.group)) -- the context is part of neither.  `it_kb` is the class
+   of (group options, compute frameworks) under "same hash integer and ==" (base_eqb; the index of the first feature of the
+   request in that relation).  Props C15_same_class_iff_equal_options: that is Python == alone, because == implies an equal
+   hash (so a dict never splits equal keys).
 
    Iteration order of the Python set `features` is the order of the input list (a parameter; theorems hold for every
    order).  hash_collector is a dict: an association list in insertion order, keyed by gkey. *)
@@ -70,8 +73,9 @@ Definition opts_agree (a b : gfeat) : bool :=
   py_eq (VDict (g_group a)) (VDict (g_group b)) && py_eq (cfw_val (g_cfw a)) (cfw_val (g_cfw b)).
 
 (* ---------- the hash: which (group options, frameworks) get the same INTEGER ----------
-   The code compares hash((options, frozenset(cfw))) where hash(options) = hash(_make_hashable(options.group)).  Two things
-   make that coarser than equality of the options:
+   hash((options, frozenset(cfw))) where hash(options) = hash(_make_hashable(options.group)) is what a dict lookup tests first.
+   Two things make it coarser than equality of the options (which is why the unrepaired code, which compared only the
+   integers, conflated unequal options):
    (1) _make_hashable is not injective: [1, 2] and (1, 2), a dict and the tuple of its sorted items have the same canonical
        form (canon_eqb);
    (2) CPython's hash is not injective on canonical forms.  What is modelled (hnorm = a normal form such that two canonical
@@ -115,11 +119,13 @@ Definition canon_eqb (a b : gfeat) : bool :=
   | _, _ => false
   end && py_eq (cfw_val (g_cfw a)) (cfw_val (g_cfw b)).
 (* base_similarity_properties() equal: the same hash integer *)
-Definition base_eqb (a b : gfeat) : bool :=
+Definition hash_eqb (a b : gfeat) : bool :=
   match hash_key (VDict (g_group a)), hash_key (VDict (g_group b)) with
   | Some x, Some y => py_eq (hnorm x) (hnorm y)
   | _, _ => false
   end && py_eq (cfw_val (g_cfw a)) (cfw_val (g_cfw b)).
+(* one dictionary key / base_similarity_key() ==: the same hash integer AND == *)
+Definition base_eqb (a b : gfeat) : bool := hash_eqb a b && opts_agree a b.
 Fixpoint first_idx {A} (p : A -> bool) (l : list A) : nat :=
   match l with [] => 0 | x :: t => if p x then 0 else S (first_idx p t) end.
 Definition base_class (fs : list gfeat) (x : gfeat) : nat := first_idx (fun y => base_eqb y x) fs.
